@@ -27,6 +27,10 @@ OCG_T = BC + 'ordered_call_graph::OrderedCallGraph'
 EDGE = PX + 'analyses::call_graph::core_graph::CallGraphEdgeMetadata'
 
 
+def short(p):
+    return '::'.join(strip_generics(p).split('::')[-2:])
+
+
 def r1_typestate(ctx):
     ctx.rule('C01.R1', 'P3: the struct OrderedCallGraph is constructed (aggregate) only inside OrderedCallGraph::order, and order() is called only from '
              'OrderedCallGraph::new; every call graph stored for code generation has that type (fields of RequestHandlerPipeline / '
@@ -370,6 +374,174 @@ def r11_unelide_early_exits(ctx):
            '%d branch(es) decide whether the callable is returned unchanged; predicates feeding them: %s; not reviewed: %s' % (n, sorted(found), new_ or 'none'))
 
 
+def _config_styles(ctx, b):
+    """For the (inlined) body b: for every call of a rustdoc_ir renderer that takes a `&RenderConfig`, the set of (PathStyle variant,
+    LifetimeStyle variant) pairs its configuration can have; None in a slot = could not be determined."""
+    from ..inline import inlined
+    ib = inlined(ctx.fb, b, crate='rustdoc_ir')
+    defs = Defs(ib)
+    out = []
+    for bb, t in ib.calls():
+        if not any('RenderConfig' in (a_ty or '') for a_ty in t.get('aty', [])):
+            continue
+        for a, aty in zip(t['args'], t.get('aty', [])):
+            if 'RenderConfig' not in (aty or ''):
+                continue
+            pl = op_place(a)
+            if pl is None:
+                out.append((ib.loc(bb, t), {(None, None)}))
+                continue
+            sl, _ = backward_slice(ib, pl['l'], defs, through_calls=False)
+            pairs = set()
+            unknown = False
+            for bb2, j2, node in sl:
+                rv = node.get('rv')
+                if rv and rv['k'] == 'agg' and rv.get('ak') == 'adt' and strip_generics(rv['adt']).endswith('render::RenderConfig'):
+                    vs = []
+                    for fld in ('path', 'lifetime'):
+                        o = rv['ops'][rv['fields'].index(fld)]
+                        q = op_place(o)
+                        got = set()
+                        if q is not None:
+                            sl2, _ = backward_slice(ib, q['l'], defs, through_calls=False)
+                            for _, _, n2 in sl2:
+                                r2 = n2.get('rv')
+                                if r2 and r2['k'] == 'agg' and r2.get('ak') == 'adt' and strip_generics(r2['adt']).endswith('Style'):
+                                    got.add(r2['var'])
+                                elif n2.get('k') == 'call':
+                                    got.add(None)
+                        vs.append(got or {None})
+                    for p in vs[0]:
+                        for l in vs[1]:
+                            pairs.add((p, l))
+                elif node.get('k') == 'call' and 'RenderConfig' in (ib.locals[node['dest']['l']] if not node['dest'].get('p') else ''):
+                    unknown = True
+            if unknown or not pairs:
+                pairs.add((None, None))
+            out.append((ib.loc(bb, t), pairs))
+    return out
+
+
+def r12_codegen_renderers_erase_lifetimes(ctx):
+    ctx.rule('C01.R12', 'P9 sibling agreement: the five callable-path renderers that write into GENERATED code (`render_path`, the form that takes '
+             'the id -> name map) render every nested type and generic argument with the configuration (PathStyle::CrateLookup, '
+             'LifetimeStyle::Erase), however that configuration is built (literal, or a constructor of RenderConfig, which is followed). The '
+             'call they emit sits in a function that declares no lifetime parameters: a sibling that preserves named lifetimes writes '
+             '`<app::Session<\'a> as Clone>::clone(&v)` — E0261 in the SDK — for a cloned type that is spelled with a named lifetime.')
+    n = 0
+    for b in ctx.fb.bodies('rustdoc_ir'):
+        if b.is_promoted or not b.nid.startswith('rustdoc_ir::callable_path::') or not b.nid.endswith('::render_path'):
+            continue
+        sites = _config_styles(ctx, b)
+        for loc, pairs in sites:
+            n += 1
+        bad = [(loc, sorted(pairs, key=str)) for loc, pairs in sites if pairs != {('CrateLookup', 'Erase')}]
+        ctx.ob('C01.R12', 'erase-in-generated-code|%s' % b.nid.split('::')[-2], bool(sites) and not bad, bad[0][0] if bad else b.loc(),
+               '%s::render_path: %d nested render call(s), all with (CrateLookup, Erase): %s%s' % (
+                   b.nid.split('::')[-2], len(sites), not bad, '' if not bad else ' — NO: %s' % bad[0][1]))
+    ctx.floor('C01.R12', 'nested render calls in the callable path renderers', n, 5)
+
+
+CANON_OPEN = ('rustdoc_ir::type_::CanonicalType::inner', 'rustdoc_ir::type_::CanonicalType::into_inner')
+IDENTITY_CALLS = ('as_ref', 'deref', 'borrow', 'clone', 'as_mut', 'deref_mut', 'to_owned', 'unwrap', 'expect', 'as_deref', 'into_inner', 'inner')
+CMP_SINKS = ('eq', 'ne', 'hash', 'cmp', 'partial_cmp', 'get', 'get_mut', 'contains_key', 'contains', 'insert', 'entry', 'remove', 'get_by_left',
+             'get_index_of', 'swap_remove', 'shift_remove')
+
+
+def canonical_fragment_flows(b):
+    """-> (n_open, whole_sinks, fragment_sinks): the calls of CanonicalType::inner / into_inner in body b, and the comparison / hashing /
+    map-key sinks reached by the whole opened value and by a FRAGMENT of it (a value obtained through a field or variant projection)."""
+    whole, frag = set(), set()
+    n_open = 0
+    for bb, t in b.calls():
+        c = strip_generics(callee(t) or '')
+        if c in CANON_OPEN and not t['dest'].get('p'):
+            whole.add(t['dest']['l'])
+            n_open += 1
+    # the tuple field of a CanonicalType value read directly (inside rustdoc_ir)
+    for bb, j, st in b.all_assigns():
+        rv = st['rv']
+        pl = rv.get('pl') or (op_place(rv['op']) if rv['k'] == 'use' else None)
+        if pl is not None and not st['lhs'].get('p') and 'CanonicalType' in b.locals[pl['l']] and 'f:0' in pl.get('p', []) and 'Type' in b.locals[st['lhs']['l']]:
+            whole.add(st['lhs']['l'])
+            n_open += 1
+    if not whole:
+        return 0, [], []
+    changed = True
+    while changed:
+        changed = False
+        for bb, blk in enumerate(b.blocks):
+            for st in blk['st']:
+                lhs = st.get('lhs')
+                if lhs is None or lhs.get('p'):
+                    continue
+                rv = st['rv']
+                if rv['k'] not in ('use', 'ref', 'cfd', 'cast', 'rawptr'):
+                    continue
+                pl = rv.get('pl') or op_place(rv.get('op'))
+                if pl is None:
+                    continue
+                proj = [e for e in pl.get('p', []) if e != '*']
+                l = lhs['l']
+                if pl['l'] in frag or (pl['l'] in whole and proj):
+                    if l not in frag:
+                        frag.add(l); changed = True
+                elif pl['l'] in whole and l not in whole and l not in frag:
+                    whole.add(l); changed = True
+            t = blk['term']
+            if t and t['k'] == 'call' and not t['dest'].get('p') and t['args']:
+                name = (callee(t) or '').split('::')[-1].split('<')[0]
+                if name in IDENTITY_CALLS:
+                    a0 = op_place(t['args'][0])
+                    d = t['dest']['l']
+                    if a0 is not None:
+                        if a0['l'] in frag and d not in frag:
+                            frag.add(d); changed = True
+                        elif a0['l'] in whole and d not in whole and d not in frag:
+                            whole.add(d); changed = True
+    ws, fs = [], []
+    for bb, t in b.calls():
+        name = (callee(t) or '').split('::')[-1].split('<')[0]
+        if name not in CMP_SINKS:
+            continue
+        for a in t['args']:
+            pl = op_place(a)
+            if pl is None:
+                continue
+            if pl['l'] in frag:
+                fs.append((bb, t)); break
+            if pl['l'] in whole:
+                ws.append((bb, t)); break
+    return n_open, ws, fs
+
+
+def r13_canonical_forms_compared_whole(ctx):
+    ctx.rule('C01.R13', 'P7 provenance: the names in a canonical form are POSITIONAL (`&\'a RawPathParams<\'b, \'c>`), so a part of a canonical form is '
+             'not the canonical form of that part. Wherever a CanonicalType is opened (`inner()` / `into_inner()` / its field), the opened value '
+             'may be displayed, cloned, re-canonicalized or compared WHOLE, but no value reached from it through a field or variant projection '
+             'is compared, hashed or used as a map key. (`needs_input_type` peels the reference off the raw parameter and canonicalizes what is '
+             'inside; peeling the canonical form instead makes `&RawPathParams<\'_, \'_>` differ from the framework item, the router then omits '
+             '`let url_params = ..` and the generated entrypoint call does not compile.)')
+    n_open, n_whole = 0, 0
+    for crate in ('pavexc', 'rustdoc_ir', 'rustdoc_resolver', 'rustdoc_processor'):
+        try:
+            bodies = ctx.fb.bodies(crate)
+        except KeyError:
+            continue
+        for b in bodies:
+            if b.is_promoted:
+                continue
+            k, ws, fs = canonical_fragment_flows(b)
+            n_open += k
+            n_whole += len(ws)
+            for bb, t in fs:
+                ctx.ob('C01.R13', 'fragment-of-canonical-form-compared|%s|%s' % (short(b.nroot), (callee(t) or '').split('::')[-1].split('<')[0]), False, b.loc(bb, t),
+                       'a value taken out of an opened CanonicalType through a projection reaches %s' % strip_generics(callee(t) or ''))
+    ctx.ob('C01.R13', 'canonical-forms-compared-whole', True, '', '%d sites open a CanonicalType; %d comparison / key sinks take the whole opened value; none takes a fragment' % (n_open, n_whole), nontrivial=False)
+    ctx.floor('C01.R13', 'sites that open a CanonicalType', n_open, 3)
+    ctx.floor('C01.R13', 'positive control: key sinks reached by a whole opened value (verify_singleton_ambiguity)', n_whole, 1)
+
+
 def check(ctx):
     r1_typestate(ctx)
     r2_pipeline(ctx)
@@ -380,3 +552,5 @@ def check(ctx):
     r9_total_type_walkers(ctx)
     r10_framework_items_for_every_pipeline(ctx)
     r11_unelide_early_exits(ctx)
+    r12_codegen_renderers_erase_lifetimes(ctx)
+    r13_canonical_forms_compared_whole(ctx)
